@@ -427,7 +427,16 @@ pub fn raw_strategy() -> impl Strategy<Value = RawCase> {
         data.extend_from_slice(&c);
         RawCase { types, big_endian, data }
     });
-    prop_oneof![10 => free, 2 => split_char, 1 => twins, 1 => missing_prefix]
+    // the payload starts with the type-info word of its own first signal (a counter that happens to pass that value)
+    let own_word = (prop::sample::select(vec![RKind::Uint(32), RKind::Sint(32), RKind::Float(32), RKind::Uint(64), RKind::Str]), any::<bool>(), g::scod(), any::<bool>(), vec(any::<u8>(), 0..6)).prop_map(|(kind, vari, scod, big_endian, tail)| {
+        let ty = RType { kind, vari, trai: false, scod };
+        let w = crate::refcodec::type_word(&ty);
+        let mut data = if big_endian { w.to_be_bytes().to_vec() } else { w.to_le_bytes().to_vec() };
+        data.extend_from_slice(&[0, 0, 0, 0]);
+        data.extend(tail);
+        RawCase { types: vec![ty, RType { kind: RKind::Uint(8), vari: false, trai: false, scod: 0 }], big_endian, data }
+    });
+    prop_oneof![10 => free, 2 => split_char, 1 => twins, 1 => missing_prefix, 1 => own_word]
 }
 
 /// Block b of the trailing-length sweep: byte order x {string, raw} x closing-field length 0..=5 x 3 list prefixes;
